@@ -132,6 +132,23 @@ def scaled_history(hist, values, dt=1.0, tau=3.0, A=0.7, scale=-1.5, clear_at=No
     return None
 
 
+def tolerance_history(values, target=0.5, tol=0.2, dt=1.0, tau=3.0, A=0.7):
+    """cumulative and nearest trace reducers with a matching TOLERANCE on real-valued observations: an observation within
+    `tol` of the target is an event, against the closed forms over those events"""
+    reds = {"cumulative": CumulativeTraceReducer(dt, tau, A, target, tol), "nearest": NearestTraceReducer(dt, tau, A, target, tol)}
+    hist = []
+    inp = dict(values=list(values), target=target, tolerance=tol, dt=dt, tau=tau, A=A)
+    for step, v in enumerate(values):
+        hist.append(abs(v - target) <= tol)
+        for k, r in reds.items():
+            r(torch.tensor([v]))
+            exp = closed_cumulative(hist, A, tau, dt) if k == "cumulative" else closed_nearest(hist, A, tau, dt)
+            got = float(r.peek()[0])
+            if abs(got - exp) > 1e-5:
+                return {"what": f"C07/{k}/closed_form_with_tolerance", "input": dict(inp, step=step), "expected": exp, "actual": got}
+    return None
+
+
 def sweep(tier="quick", seed=0, unsupported=()):
     L = 5 if tier == "quick" else 7
     failures, cases = [], 0
@@ -151,6 +168,9 @@ def sweep(tier="quick", seed=0, unsupported=()):
         clears = tuple(sorted({rnd.randrange(1, n): rnd.random() < 0.5 for _ in range(2)}.items()))
         cases += 1
         add(run_history(hist, dt=rnd.choice([1.0, 0.5, 1.3]), tau=rnd.choice([2.0, 7.5]), duration=rnd.choice([0.0, 2.0, 3.9]), inplace=rnd.random() < 0.5, clears=clears))
+    for _ in range(20 if tier == "quick" else 200):
+        cases += 1
+        add(tolerance_history([rnd.choice([0.5, 0.62, 0.31, 0.9, 0.05, 0.7]) for _ in range(rnd.randint(3, 8))], tol=rnd.choice([0.2, 0.125])))
     for _ in range(30 if tier == "quick" else 200):
         n = rnd.randint(3, 8)
         hist = [rnd.random() < 0.4 for _ in range(n)]
@@ -180,6 +200,9 @@ def replay(contract, label, model, note=""):
 
 def replay_native(rp):
     inp = rp["input"]
+    if "tolerance" in inp:
+        f = tolerance_history(inp["values"], inp["target"], inp["tolerance"], inp["dt"], inp["tau"], inp["A"])
+        return {"reproduced": f is not None, "failure": f}
     if "values" in inp:
         f = scaled_history(inp["hist"], inp["values"], dt=inp["dt"], tau=inp["tau"], A=inp["A"], scale=inp["scale"], clear_at=inp.get("clear_at"), keepshape=inp.get("keepshape", True))
         return {"reproduced": f is not None, "failure": f}
